@@ -890,3 +890,44 @@ package server
 //@ may_emit ParseTemplates
 //@ ensures[C13,C19] chain_order: typeis(result, `*RequestStartMiddleware`) && typeis(as(payload(result), `*RequestStartMiddleware`).next, `*RequestIDMiddleware`) && typeis(as(payload(as(payload(result), `*RequestStartMiddleware`).next), `*RequestIDMiddleware`).next, `*LoggingMiddleware`) && (typeis(as(payload(as(payload(as(payload(result), `*RequestStartMiddleware`).next), `*RequestIDMiddleware`).next), `*LoggingMiddleware`).next, `*ErrorPageMiddleware`) || isnil(as(payload(as(payload(as(payload(result), `*RequestStartMiddleware`).next), `*RequestIDMiddleware`).next), `*LoggingMiddleware`).next))
 //@ ensures[C19] logging_ports: as(payload(as(payload(as(payload(result), `*RequestStartMiddleware`).next), `*RequestIDMiddleware`).next), `*LoggingMiddleware`).httpPort == s.config.HttpPort && as(payload(as(payload(as(payload(result), `*RequestStartMiddleware`).next), `*RequestIDMiddleware`).next), `*LoggingMiddleware`).httpsPort == s.config.HttpsPort
+
+//@ func (*server.PauseController).UnmarshalJSON
+//@ attr unpublished = p
+//@ assigns *
+//@ may_emit *
+//@ ensures[C07,C11] restored_controller_is_well_formed: err == nil ==> pauseInv(p)
+
+//@ func (*server.LoadBalancer).MarkAllHealthy
+//@ requires forall i int :: 0 <= i && i < len(lb.all) ==> targetWF(lb.all[i]) && lb.all[i].becameHealthy != nil
+//@ assigns Target.state, everHealthy, lb.healthy
+//@ ensures[C11] restored_targets_presumed_healthy: lbReady(lb) && forall i int :: 0 <= i && i < len(lb.all) ==> lb.all[i].state == TargetStateHealthy
+//@ ensures[C11] all_in_rotation: len(lb.healthy) <= len(lb.all) && forall i int :: 0 <= i && i < len(lb.all) ==> (exists j int :: 0 <= j && j < len(lb.healthy) && lb.healthy[j] == lb.all[i])
+//@ loop 1 invariant marked_so_far: forall i int :: 0 <= i && i < idx ==> coll[i].state == TargetStateHealthy && everHealthy(coll[i])
+//@ loop 1 invariant same: coll == lb.all && idx <= len(coll)
+//@ loop 1 invariant wf: forall i int :: 0 <= i && i < len(coll) ==> coll[i] != nil
+//@ loop 1 invariant distinct_irrelevant: true
+
+//@ func (*server.Service).MarshalJSON
+//@ requires s.active != nil && lbReady(s.active) && (s.rollout != nil ==> lbReady(s.rollout))
+//@ assigns nothing
+//@ may_emit JsonMarshal, MarshalService
+//@ ensures[C11] everything_observable_is_persisted: count(JsonMarshal(_)) == 1 && all(JsonMarshal, boxed($0, `marshalledService`).Name == s.name && boxed($0, `marshalledService`).Options == s.options && boxed($0, `marshalledService`).TargetOptions == s.targetOptions && boxed($0, `marshalledService`).PauseController == s.pauseController && boxed($0, `marshalledService`).RolloutController == s.rolloutController)
+//@ ensures[C11] rollout_targets_only_when_present: all(JsonMarshal, s.rollout == nil ==> isnil(boxed($0, `marshalledService`).RolloutTargets))
+//@ emits MarshalService(s)
+
+//@ func (server.TargetList).Names
+//@ requires forall i int :: 0 <= i && i < len(tl) ==> tl[i] != nil && tl[i].targetURL != nil
+//@ assigns nothing
+//@ ensures[C11,C20] one_name_per_target: len(result) == len(tl) && forall i int :: 0 <= i && i < len(tl) ==> result[i] == tl[i].targetURL.Host
+//@ loop 1 invariant names_so_far: len(names) == idx && idx <= len(coll) && coll == tl && forall i int :: 0 <= i && i < len(names) ==> names[i] == coll[i].targetURL.Host
+
+//@ func (*server.Service).UnmarshalJSON
+//@ attr unpublished = s
+//@ attr constructs = s
+//@ requires zero_valued_receiver: s.active == nil && s.rollout == nil && s.pauseController == nil && s.rolloutController == nil
+//@ assigns *
+//@ may_emit *
+//@ ensures[C11] restored_fields: err == nil ==> s.name == ms.Name && s.pauseController == ms.PauseController && s.rolloutController == ms.RolloutController && s.options == ms.Options && s.targetOptions == ms.TargetOptions
+//@ ensures[C11] active_targets_presumed_healthy: err == nil ==> s.active != nil && fresh(s.active) && lbReady(s.active) && len(s.active.all) == len(ms.ActiveTargets)
+//@ ensures[C10,C11] rollout_slot_only_with_rollout_targets: err == nil ==> (len(ms.RolloutTargets) == 0 ==> s.rollout == nil) && (len(ms.RolloutTargets) > 0 ==> s.rollout != nil && lbReady(s.rollout) && len(s.rollout.all) == len(ms.RolloutTargets))
+//@ ensures[C11,C16] reinitialised: err == nil ==> (!isnil(s.certManager)) == s.options.TLSEnabled && !isnil(s.middleware)
